@@ -36,9 +36,9 @@ func genC08(t *rapid.T) CaseC08 {
 		c.Negative = rapid.SampledFrom([]string{"command", "encrypted", "table-id", "identifier", "identifier-short", "table-id-short"}).Draw(t, "neg-kind")
 		switch c.Negative {
 		case "command":
-			// reserved command types, and the two defined ones whose empty body is not even the syntax of that command;
-			// not bandwidth_reservation 0x07: its body is empty, and a library may come to support it
-			c.NegValue = int(rapid.SampledFrom([]byte{0x04, 0x09, 0xFF, 0x01, 0x02, 0x03, 0x08, 0x80}).Draw(t, "neg-cmd"))
+			// command types SCTE 35 does not define: the defined ones this library does not support today (splice_schedule,
+			// bandwidth_reservation, private_command) may come to be supported, and then answer an empty body differently
+			c.NegValue = int(rapid.SampledFrom([]byte{0x01, 0x02, 0x03, 0x08, 0x09, 0x80, 0x7F, 0xFE}).Draw(t, "neg-cmd"))
 		case "table-id", "table-id-short":
 			c.NegValue = int(rapid.SampledFrom([]byte{0x00, 0x02, 0xFB, 0xFD, 0xFF, 0x7C}).Draw(t, "neg-tid"))
 			c.NegLen = rapid.IntRange(0, 10).Draw(t, "neg-short-len")
